@@ -1193,6 +1193,8 @@ static uint32_t xmi2mid_ExtractTracksFromXmi(struct xmi2mid_xmi_ctx *ctx) {
         /* Convert it */
         if (!(ppqn = xmi2mid_ConvertFiletoList(ctx, &rbrn))) {
             /*_WM_GLOBAL_ERROR(__FUNCTION__, __LINE__, WM_ERR_CORUPT, NULL, 0);*/
+            xmi2mid_DeleteEventList(ctx->list);
+            ctx->list = NULL;
             break;
         }
         ctx->timing[num] = ppqn;
